@@ -45,6 +45,12 @@ def make_still(spec):
         while x < w:
             if kind == "uniform":
                 run, col, a = w, palette[0], alphas[spec["seed"] % len(alphas)]
+            elif kind == "bands":  # flat rows alternating with noise rows (strips of very
+                # different compressibility in one render)
+                if (y // max(1, h // 4)) % 2 == 0:
+                    run, col, a = w, palette[0], 255
+                else:
+                    run, col, a = 1, tuple(rng.randrange(256) for _ in range(3)), 255
             elif kind == "runs":
                 run, col, a = rng.randint(1, max(1, w)), rng.choice(palette), rng.choice(alphas)
             elif kind == "alpha-flip":  # colour runs with alpha flips inside
@@ -87,6 +93,8 @@ def run_case(case):
     KittyImage._KITTY_VERSION = tuple(case.get("kitty_version", (0, 30, 0)))
     ITerm2Image._TERM = case.get("term", "")
     captured = {}
+    saved_ratio = term_image._cell_ratio
+    base_ts = _common.get_terminal_size
     orig = _common.BaseImage._get_render_data
 
     def wrapped(self, *a, **k):
@@ -102,7 +110,43 @@ def run_case(case):
             rgba = img.convert("RGBA")
             src_pixels = [list(p) for p in rgba.getdata()]
         w, h = case["cells"]
-        image = cls(img, width=w, height=h)
+        dyn = case.get("dynamic")
+        if dyn is not None:
+            # a DYNAMIC size (default FIT): the advertised size is asked under one environment,
+            # then the environment changes (cell size / cell ratio, same columns x lines)
+            image = cls(img)
+            pre = dyn.get("pre", {})
+            if "cell_size" in pre:
+                tests.set_cell_size(tuple(pre["cell_size"]))
+            if "ratio" in pre:
+                term_image.set_cell_ratio(pre["ratio"])
+            res_pre = list(image.rendered_size)
+            tests.set_cell_size(tuple(case.get("cell_size", (10, 20))))
+            if "ratio" in dyn:
+                term_image.set_cell_ratio(dyn["ratio"])
+        else:
+            image = cls(img, width=w, height=h)
+        pinned = []
+        if case.get("resize_during"):
+            # the terminal is resized while ONE render is in progress: from its k-th query of the
+            # terminal size on, the answer is another size
+            k0, other = case["resize_during"]
+            calls = {"n": 0}
+
+            def ts():
+                calls["n"] += 1
+                return __import__("os").terminal_size(tuple(other)) if calls["n"] > k0 else base_ts()
+
+            _common.get_terminal_size = ts
+            ri = image._render_image
+
+            def rimg(*a, **k):
+                pinned.append(list(image.rendered_size))
+                out_ = ri(*a, **k)
+                pinned.append(list(image.rendered_size))
+                return out_
+
+            image._render_image = rimg
         alpha = parse_alpha(case.get("alpha"))
         args = dict(case.get("args", {}))
         via = case.get("via", "renderer")
@@ -113,12 +157,18 @@ def run_case(case):
         else:
             out = image._renderer(image._render_image, alpha, **args)
         res = {"out": out, "rendered_size": list(image.rendered_size)}
+        if pinned:
+            res["pinned_sizes"] = pinned
+            res["rendered_size"] = pinned[0]  # the size the render was made for
+        if dyn is not None:
+            res["advertised_before_env_change"] = res_pre
         if style == "block" and "data" in captured:
             im2, rgb, a = captured["data"]
             res["alpha_mode"] = im2.mode == "RGBA"
             res["rgb"] = [list(p) for p in rgb]
             res["a"] = list(a)
-            res["render_px"] = list(image._get_render_size())
+            # (for a render during which the terminal was resized: the size the render was pinned to)
+            res["render_px"] = [pinned[0][0], 2 * pinned[0][1]] if pinned else list(image._get_render_size())
         if src_pixels is not None:
             res["src"] = src_pixels
         if style == "block" and alpha is None and img.mode in ("RGBA", "LA", "PA") and via == "renderer":
@@ -133,6 +183,10 @@ def run_case(case):
     finally:
         _common.BaseImage._get_render_data = orig
         ITerm2Image._TERM = ""
+        if case.get("resize_during"):
+            _common.get_terminal_size = base_ts
+        if case.get("dynamic") is not None:
+            term_image._cell_ratio = saved_ratio
 
 
 if __name__ == "__main__":
